@@ -105,6 +105,45 @@ pub fn run(ctx: &Ctx) -> Result<(), String> {
             }
         }
     }
+    // open-loop flood with the project's own stress client (sampled): the queue is kept non-empty
+    {
+        let plans: Vec<(usize, i32)> = ctx.tier.pick(vec![(2, libc::SIGINT)], vec![(1, libc::SIGINT), (2, libc::SIGTERM), (4, libc::SIGINT), (8, libc::SIGTERM)]);
+        for (senders, sig) in plans {
+            let port = free_port();
+            let mut w = Written::base(port);
+            w.set("num_workers", "1");
+            let mut sp = ServerProc::start(&w, Source::File, &[])?;
+            sp.wait_started(1, Duration::from_secs(20));
+            let mut kids = vec![];
+            for _ in 0..senders {
+                let c = std::process::Command::new(crate::proc::repo_bin("roughenough-client"))
+                    .args(["-s", "127.0.0.1", &port.to_string()])
+                    .stdin(std::process::Stdio::null())
+                    .stdout(std::process::Stdio::null())
+                    .stderr(std::process::Stdio::null())
+                    .spawn()
+                    .map_err(|e| format!("spawn stress client: {}", e))?;
+                kids.push(c);
+            }
+            std::thread::sleep(Duration::from_millis(400));
+            let t0 = Instant::now();
+            sp.signal(sig);
+            let ex = sp.wait_exit(Duration::from_secs(15));
+            let secs = t0.elapsed().as_secs_f64();
+            for mut k in kids {
+                let _ = k.kill();
+                let _ = k.wait();
+            }
+            let se = sp.stderr();
+            let ok = matches!(ex, Some((Some(0), _, _))) && secs <= 5.0 && !se.contains("panicked");
+            sampled.push(json!({"flood_senders":senders,"signal":if sig == libc::SIGINT {"INT"} else {"TERM"},"exit":format!("{:?}", ex.map(|e| (e.0, e.1))),"seconds":(secs * 1000.0).round() / 1000.0}));
+            if !ok {
+                ctx.violation("wall-clock-shutdown", if ex.is_none() { "no-exit-15s" } else { "slow-or-unclean" }, "open-loop-flood",
+                    json!({"kind":"wallclock-flood","senders":senders,"signal":sig,"exit":format!("{:?}", ex),"seconds":secs}));
+            }
+            sp.kill();
+        }
+    }
     ctx.cov("states", json!(sched.states + lasso["rounds"].as_u64().unwrap_or(0)));
     ctx.cov("transitions", json!(sched.transitions + lasso["steps"].as_u64().unwrap_or(0)));
     ctx.cov("traces_validated_against_impl", json!(sched.executions + lasso["executions"].as_u64().unwrap_or(0)));
